@@ -597,6 +597,17 @@ func (c *EvalCtx) localName(name string) (tv, bool) {
 				}
 			}
 		}
+		// (again, now that the phis known only by their name are among the candidates; a variable that the current
+		// loop does not change is the phi of the innermost enclosing loop that does)
+		if c.lc != nil {
+			for l := c.lc.l; l != nil; l = l.Parent {
+				for _, v := range cands {
+					if ph, ok := v.(*ssa.Phi); ok && ph.Block() == l.Header {
+						return tv{c.ex.val(st, v), v.Type()}, true
+					}
+				}
+			}
+		}
 		// a phi that merges (directly or through other phis) all the other candidates is the variable's value after
 		// the merge; among several such phis the one that comes last in program order
 		var covering []ssa.Value
@@ -663,7 +674,19 @@ func (c *EvalCtx) localName(name string) (tv, bool) {
 		if best != nil {
 			return tv{c.ex.val(st, best), best.Type()}, true
 		}
-		c.errf("local name %s is ambiguous (%d SSA values); name a phi or use a ghost", name, len(cands))
+		var where []string
+		for _, v := range cands {
+			if in, ok := v.(ssa.Instruction); ok && in.Block() != nil {
+				where = append(where, fmt.Sprintf("%s@block%d", v.Name(), in.Block().Index))
+			} else {
+				where = append(where, v.Name())
+			}
+		}
+		hdr := -1
+		if c.lc != nil {
+			hdr = c.lc.l.Header.Index
+		}
+		c.errf("local name %s is ambiguous (%d SSA values: %s; loop header block %d); name a phi or use a ghost", name, len(cands), strings.Join(where, ", "), hdr)
 	}
 	// free variables of closures
 	for _, fv := range fr.fn.FreeVars {
